@@ -8,7 +8,7 @@ import itertools
 
 import numpy as np
 
-from mc import ScopeUnit, FAILED
+from mc import ScopeUnit, HistoryUnit, FAILED
 from mc.state import reset_executors
 
 from prysm import fttools, coordinates, psf as psfmod
@@ -323,6 +323,100 @@ def run_centroid(case, seed, R):
     R.outcome('centroid')
 
 
+# ---------------------------------------------------------------------------------------------
+# object history: one Wavefront padded / cropped / written to repeatedly (explicit-state BFS).  The reference model is a
+# plain array on which pad = "embed with sample n//2 at N//2", crop = "centre slice about n//2", write = "add 100 everywhere".
+
+WF_SIZES = [[2, 3], [3, 3], [4, 5], [5, 4], [6, 6]]
+
+
+class WfState:
+    __slots__ = ('wf', 'model', 'dead', 'side')
+
+    def __init__(self, wf, model):
+        self.wf, self.model, self.dead, self.side = wf, model, False, None
+
+
+def wf_fresh(init, seed):
+    a = labels(tuple(init['shape'])).astype(complex)
+    return WfState(Wavefront(a.copy(), 0.5, 1.0), a.copy())
+
+
+def wf_events(init, history, st):
+    if st.dead:
+        return []
+    cur = st.model.shape
+    out = []
+    for sz in WF_SIZES:
+        if tuple(sz) == cur:
+            continue
+        if sz[0] >= cur[0] and sz[1] >= cur[1]:
+            out += [['pad', sz, 0], ['pad', sz, 7.5], ['pad_new', sz, 0]]
+        if sz[0] <= cur[0] and sz[1] <= cur[1]:
+            out += [['crop', sz], ['crop_new', sz]]
+    out += ['write', 'rebind']
+    return out
+
+
+def wf_apply(st, ev, R):
+    if st.dead:
+        return st
+    w = st.wf
+    name = ev if isinstance(ev, str) else ev[0]
+    st.side = None
+    if name in ('pad', 'pad_new'):
+        out = R.call(w.pad2d, 1, value=ev[2], out_shape=tuple(ev[1]), inplace=name == 'pad', sig=f'Wavefront.pad2d:history:exception')
+        want = ref_pad(st.model.real, tuple(ev[1]), 'constant', ev[2]) + 1j * ref_pad(st.model.imag, tuple(ev[1]), 'constant', 0)
+        if name == 'pad':
+            st.model = want
+        else:
+            st.side = (out, want)
+    elif name in ('crop', 'crop_new'):
+        out = R.call(w.crop, tuple(ev[1]), inplace=name == 'crop', sig='Wavefront.crop:history:exception')
+        want = ref_crop(st.model, tuple(ev[1])).copy()
+        if name == 'crop':
+            st.model = want
+        else:
+            st.side = (out, want)
+    elif name == 'write':          # the user writes into the whole current frame in place (a mask, a phase screen)
+        out = None
+        w.data[...] = w.data + 100
+        st.model = st.model + 100
+    elif name == 'rebind':         # the user assigns a new array of the same shape (wf.data = wf.data * 2)
+        out = None
+        w.data = w.data * 2
+        st.model = st.model * 2
+    else:
+        raise ValueError(ev)
+    if out is FAILED:
+        st.dead = True
+    return st
+
+
+def wf_check(st, init, history, R):
+    if st.dead:
+        R.outcome('exception')
+        return
+    last = history[-1] if history else 'init'
+    name = last if isinstance(last, str) else last[0]
+    R.expect_equal(st.wf.data, st.model, f'Wavefront:history:{name}', f'Wavefront data after {history} differ from the array model (pad embeds sample n//2 at N//2 into a border of the fill value, crop slices about n//2)')
+    R.expect(st.wf.dx == 1.0 and st.wf.wavelength == 0.5, f'Wavefront:history:{name}:meta', 'dx / wavelength changed')
+    if st.side is not None:
+        out, want = st.side
+        if out is not FAILED:
+            R.expect(out is not st.wf, f'Wavefront:history:{name}:inplace', 'inplace=False returned the object itself')
+            R.expect_equal(getattr(out, 'data', None), want, f'Wavefront:history:{name}:result', f'out-of-place result after {history}')
+    R.nontrivial(len(history) >= 2)
+    R.outcome(name)
+
+
+def wf_canon(st):
+    if st.dead:
+        return 'dead'
+    d = np.asarray(st.wf.data)
+    return (d.shape, np.ascontiguousarray(d).tobytes(), bool(d.flags.owndata), bool(d.flags.c_contiguous))
+
+
 def plan(tier, seed):
     B1 = 12 if tier == 'quick' else 24      # 1-D style bounds (grids)
     B2 = 6 if tier == 'quick' else 9        # per-axis bound for the 4-index pad/crop product
@@ -345,7 +439,16 @@ def plan(tier, seed):
     ce_cases = [{'n0': n0, 'n1': n1, 'dx': dx} for n0 in range(1, B2 + 3) for n1 in range(1, B2 + 3) for dx in (1.0, 0.3)]
     ce_cases += [{'n0': n0, 'n1': n1, 'dx': 0.5} for (n0, n1) in ((33, 48), (48, 33), (64, 64), (65, 65), (1, 300), (257, 2))]   # index x value overflows narrow containers
     rs = lambda: reset_executors(64)   # noqa
+    wf_depth = 4 if tier == 'quick' else 5
+    wf_inits = [{'shape': sz} for sz in ([[3, 3], [4, 5]] if tier == 'quick' else WF_SIZES)]
+    wf_unit = HistoryUnit('wavefront_history', wf_inits, wf_fresh, wf_events, wf_apply, wf_check, wf_canon, wf_depth,
+                          f'BFS to depth {wf_depth} over histories of ONE Wavefront object from shapes {[i["shape"] for i in wf_inits]}: events pad2d in place to every '
+                          f'larger-or-equal size of {WF_SIZES} with fill 0 / 7.5, pad2d out of place, crop in place / out of place to every smaller-or-equal '
+                          'size, write (data[...] += 100 in place), rebind (data = data*2); labelled complex data; in every state the data equal the plain-array '
+                          'model (pad embeds sample n//2 at N//2 into a border of the fill value, crop slices about n//2), out-of-place results equal the model '
+                          'result and leave the object alone; canonical state = (shape, data bytes, owns-data / contiguity flags of the data array)', reset=rs)
     return [
+        wf_unit,
         ScopeUnit('grids', grid_cases, run_grid,
                   f'every (n0,n1) in [1..{B1}]^2 x dx in {{1,0.3,0.125}} x precision {{64,32}}: fftrange, forward_ft_unit (both conventions), '
                   'make_xy_grid (vectors, meshgrid, int shape, diameter form), RichData.x/.y in both lazy-initialisation orders; non-trivial when n>1', reset=rs),
